@@ -4,23 +4,32 @@ records the obligation keys that fired in its meta.json, and prints a table. /re
 import json, os, subprocess, sys, glob
 allp = "--all" in sys.argv
 rows = []
+from concurrent.futures import ThreadPoolExecutor
+def run(p):
+    out = subprocess.run(f"/verif/bin/wvsa check -p {p} -no-evidence", shell=True, capture_output=True, text=True).stdout
+    return p, [l.split("key=")[1].strip() for l in out.splitlines() if l.strip().startswith("rule=") and "key=" in l]
 for d in sorted(glob.glob("/verif/seeded/*/")):
     meta = json.load(open(d + "meta.json"))
     pid = meta["property"]
     assert subprocess.run("git -C /repo status --porcelain", shell=True, capture_output=True, text=True).stdout == "", "/repo dirty"
     subprocess.check_call(f"git -C /repo apply {d}patch.diff", shell=True)
     try:
-        props = [pid] + ([f"C{i:02d}" for i in range(1, 21) if f"C{i:02d}" != pid] if allp else [])
+        refactor = meta.get("kind") == "refactor"
+        props = [pid] + ([f"C{i:02d}" for i in range(1, 21) if f"C{i:02d}" != pid] if (allp or refactor) else [])
         fired = {}
-        for p in props:
-            out = subprocess.run(f"/verif/bin/wvsa check -p {p} -no-evidence", shell=True, capture_output=True, text=True).stdout
-            keys = [l.split("key=")[1].strip() for l in out.splitlines() if l.strip().startswith("rule=") and "key=" in l]
-            if keys:
-                fired[p] = keys
+        with ThreadPoolExecutor(max_workers=10) as ex:
+            for p, keys in ex.map(run, props):
+                if keys:
+                    fired[p] = keys
     finally:
         subprocess.check_call("git -C /repo checkout -- . && git -C /repo clean -fdq", shell=True)
-    meta["caught_by"] = fired
-    meta["caught_by_claimed_property"] = pid in fired
+    if meta.get("kind") == "refactor":
+        meta["expected"] = "every check stays silent (behaviour is preserved)"
+        meta["alarms"] = fired
+        meta["silent"] = not fired
+    else:
+        meta["caught_by"] = fired
+        meta["caught_by_claimed_property"] = pid in fired
     json.dump(meta, open(d + "meta.json", "w"), indent=1)
     rows.append((os.path.basename(d.rstrip("/")), pid, pid in fired, sorted(fired.get(pid, []))[:3], [p for p in fired if p != pid]))
 for r in rows:
